@@ -140,6 +140,35 @@ def covered_twice(rnd, a5, gen):
     return out
 
 
+def small_mixed(rnd, a5, gen):
+    """a short antichain: one to three resolution-0 cells (every face in turn) plus one or two COMPLETE sibling groups elsewhere
+    (the five segments of another face, four siblings at a random depth, a two-level cascade) and a few loose cells"""
+    faces = a5.cell_to_children(0, 0)
+    idx = list(range(12))
+    rnd.shuffle(idx)
+    nf = rnd.randint(1, 3)
+    out = [faces[i] for i in idx[:nf]]
+    rest = idx[nf:]
+    for g in range(rnd.randint(1, 2)):
+        f = faces[rest[g]]
+        m = rnd.random()
+        if m < 0.4:
+            out.extend(a5.cell_to_children(f))
+        elif m < 0.7:
+            segs = a5.cell_to_children(f)
+            deep = gen.cell_by_path(a5, rest[g], rnd.randrange(5), gen.digits_pattern(rnd, rnd.randint(0, 26)))
+            out.extend(a5.cell_to_children(deep))
+        else:
+            segs = a5.cell_to_children(f)
+            k = rnd.randrange(5)
+            out.extend(s for j, s in enumerate(segs) if j != k)
+            out.extend(a5.cell_to_children(segs[k]))      # cascade: 4 children -> segment -> 5 segments -> face
+    for _ in range(rnd.randint(0, 2)):
+        f2 = rest[rnd.randint(3, len(rest) - 1)]
+        out.append(gen.cell_by_path(a5, f2, rnd.randrange(5), gen.digits_pattern(rnd, rnd.randint(0, 20))))
+    return out
+
+
 def random_large(rnd, a5, gen, size_lo=300, size_hi=3000):
     """a big mixed-resolution set with many complete and almost complete sibling groups"""
     out = []
